@@ -353,19 +353,22 @@ def step_correspondence(prop, tier, seed):
     # still "ok" must not hide them), then smallest first
     mism.sort(key=lambda c: (c["oracle"] == "ok", len(c["input"])))
     seen_sigs = set()
+    # cases of an open known finding are reported (at most twice) but must not use up the report quota below:
+    # a different violation of the same property is not to be masked by a known class that always fails
     known_res = [re.compile(k["sig_regex"]) for k in load_known()
                  if k.get("status") == "open" and k.get("property") == prop["id"]]
-    n_known = n_other = 0
+    known_seen = 0
+    n_other = 0
     for c in mism:
-        if c["sig"] in seen_sigs and len(seen_sigs) > 0:
-            continue
-        seen_sigs.add(c["sig"])
-        # cases of an open known finding must not use up the report quota of 8 signatures
-        if any(r.search(c["sig"]) for r in known_res):
-            n_known += 1
-            if n_known > 3:
+        is_known = any(r.search(c["sig"]) for r in known_res)
+        if is_known:
+            if known_seen >= 2:
                 continue
+            known_seen += 1
         else:
+            if c["sig"] in seen_sigs:
+                continue
+            seen_sigs.add(c["sig"])
             n_other += 1
         if c["oracle"] != "ok":
             fails.append(Failure("oracle", f"property oracle on {c['sig']}", c["oracle"], case=c, oracle=c["oracle"]))
@@ -495,7 +498,7 @@ def main():
         (0 if any(f.kind == "lint" for f in failures) else 1)
 
     # if a proof/translator/lint obligation broke, a concrete counterexample found by the search takes precedence
-    concrete = [f for f in failures if f.case is not None and f.oracle]
+    concrete = [f for f in failures if f.case is not None and f.oracle and not match_known(pid, f)]
     violations, known_lines = [], []
     reported = set()
     for f in failures:
